@@ -83,6 +83,7 @@ package fosite
 //@ func StringInSlice
 //@   pure
 //@   ensures [C12.string-in-slice] result <==> (exists j int :: 0 <= j && j < len(haystack) && strings.ToLower(haystack[j]) == strings.ToLower(needle))
+//@   ensures [C05.membership-is-lowercase-equality] result <==> (exists j int :: 0 <= j && j < len(haystack) && strings.ToLower(haystack[j]) == strings.ToLower(needle))
 //@   invariant loop#1 [C12.string-in-slice] $i <= len(haystack) && (forall j int :: 0 <= j && j < $i ==> strings.ToLower(haystack[j]) != strings.ToLower(needle))
 
 //@ func (Arguments).Has
@@ -429,8 +430,11 @@ package fosite
 //@   requires a != nil && request != nil && a.Form != nil
 //@   modifies a.ID, a.RequestedAt, a.Client, a.Session, a.RequestedScope, a.GrantedScope, a.RequestedAudience, a.GrantedAudience, mapof(a.Form)
 //@   ensures [C17.merge-replaces-form-values] forall k string :: (k in a.Form) == (old(k in a.Form) || k in request.GetRequestForm())
+//@   ensures [C02.merged-form-is-the-pushed-form] forall k string :: (k in a.Form) == (old(k in a.Form) || k in request.GetRequestForm())
 //@   ensures [C17.merge-replaces-form-values] forall k string :: a.Form != request.GetRequestForm() && k in request.GetRequestForm() ==> a.Form[k] == request.GetRequestForm()[k]
+//@   ensures [C02.merged-form-is-the-pushed-form] forall k string :: a.Form != request.GetRequestForm() && k in request.GetRequestForm() ==> a.Form[k] == request.GetRequestForm()[k]
 //@   ensures [C17.merge-replaces-form-values] forall k string :: !(k in request.GetRequestForm()) ==> a.Form[k] == old(a.Form[k])
+//@   ensures [C02.merged-form-is-the-pushed-form] forall k string :: !(k in request.GetRequestForm()) ==> a.Form[k] == old(a.Form[k])
 //@   ensures a.ID == request.GetID() && a.RequestedAt == request.GetRequestedAt() && a.Client == request.GetClient() && a.Session == request.GetSession()
 //@   ensures forall x string :: insl(a.GrantedScope, x) <==> (insl(old(a.GrantedScope), x) || insl(request.GetGrantedScopes(), x))
 //@   ensures forall x string :: insl(a.RequestedScope, x) <==> (insl(old(a.RequestedScope), x) || insl(request.GetRequestedScopes(), x))
